@@ -52,6 +52,61 @@ theorem tr_run_select (h : Heap) (tcs : List Nat) :
     have hs' := hs
     simp only [sortByKey] at hs'; rw [hs'] at this; simp only []; rw [hs]; simp [← this]
 
+/-- `lmin` with a current best: the answer is either that best (nothing in the list is strictly smaller) or a list
+    element that is strictly smaller than the best and than everything before it, and not larger than anything after -/
+theorem lmin_spec {α} (key : α → Int) : ∀ (xs : List α) (b : α),
+    (lmin key (some b) xs = some b ∧ ∀ y ∈ xs, key b ≤ key y) ∨
+    (∃ pre x post, xs = pre ++ x :: post ∧ lmin key (some b) xs = some x ∧ key x < key b ∧
+        (∀ y ∈ pre, key x < key y) ∧ (∀ y ∈ post, key x ≤ key y)) := by
+  intro xs
+  induction xs with
+  | nil => intro b; exact Or.inl ⟨rfl, by simp⟩
+  | cons a xs ih =>
+    intro b
+    simp only [lmin]
+    by_cases hlt : key a < key b
+    · simp only [hlt, if_true]
+      rcases ih a with ⟨h1, h2⟩ | ⟨pre, x, post, hx, h1, h2, h3, h4⟩
+      · exact Or.inr ⟨[], a, xs, rfl, h1, hlt, by simp, h2⟩
+      · refine Or.inr ⟨a :: pre, x, post, by simp [hx], h1, by omega, ?_, h4⟩
+        intro y hy
+        cases hy with
+        | head => exact h2
+        | tail _ hy' => exact h3 y hy'
+    · simp only [hlt, if_false]
+      rcases ih b with ⟨h1, h2⟩ | ⟨pre, x, post, hx, h1, h2, h3, h4⟩
+      · refine Or.inl ⟨h1, ?_⟩
+        intro y hy
+        cases hy with
+        | head => omega
+        | tail _ hy' => exact h2 y hy'
+      · refine Or.inr ⟨a :: pre, x, post, by simp [hx], h1, h2, ?_, h4⟩
+        intro y hy
+        cases hy with
+        | head => omega
+        | tail _ hy' => exact h3 y hy'
+
+/-- **C02 on the code, least advanced first.**  The component the *translated* run loop hands to
+    `_update_recursive` is a time component of minimal time, and the first such component in the listing. -/
+theorem code_run_select_least (h : Heap) (tcs : List Nat) (x : Nat) (hx : Tr.run_select h tcs = .ok x) :
+    ∃ pre post, tcs = pre ++ x :: post ∧ (∀ y ∈ pre, h.time x < h.time y) ∧ (∀ y ∈ post, h.time x ≤ h.time y) := by
+  rw [tr_run_select] at hx
+  cases tcs with
+  | nil => simp [lmin] at hx
+  | cons a xs =>
+    simp only [lmin] at hx
+    rcases lmin_spec h.time xs a with ⟨h1, h2⟩ | ⟨pre, y, post, hy, h1, h2, h3, h4⟩
+    · rw [h1] at hx
+      simp only [Except.ok.injEq] at hx; subst hx
+      exact ⟨[], xs, rfl, by simp, h2⟩
+    · rw [h1] at hx
+      simp only [Except.ok.injEq] at hx; subst hx
+      refine ⟨a :: pre, post, by simp [hy], ?_, h4⟩
+      intro z hz
+      cases hz with
+      | head => exact h2
+      | tail _ hz' => exact h3 z hz'
+
 /-- the model's `selectOrd` on a listing is `lmin` on the time components of that listing -/
 theorem lmin_selectOrd (h : Heap) (s : State) (cid : Nat → Nat)
     (ht : ∀ i, (s.comp i).isTime = true → h.time (cid i) = getNow (s.comp i)) :
